@@ -120,7 +120,7 @@ def grammar(label, pdict, acc, out):
     # flags at top level count as size attributes once seen; handled inside node via `top`
     def node_with_flags(d):
         for name, v in d.items():
-            if isinstance(v, tuple) and L.is_bitfield_type(v[0]):
+            if isinstance(v, tuple) and len(v) == 2 and isinstance(v[1], dict) and L.is_bitfield_type(v[0]):
                 for fn in v[1]:
                     top.add(fn)  # provisional; order checked by names_before below
 
@@ -131,6 +131,8 @@ def grammar(label, pdict, acc, out):
     def order(d, depth):
         for name, v in d.items():
             if isinstance(v, tuple):
+                if len(v) != 2 or not isinstance(v[1], dict):
+                    continue  # reported as bad_group_tuple by node()
                 numr, sub = v
                 if L.is_bitfield_type(numr):
                     if depth == 0:
